@@ -4,7 +4,7 @@ use hashbrown::HashSet;
 use nom::{
     Finish, IResult, Parser,
     branch::alt,
-    bytes::complete::{is_not, tag, take_till, take_until, take_while},
+    bytes::complete::{is_not, tag, take, take_till, take_until, take_while},
     character::complete::{char, multispace1},
     combinator::{eof, fail, map, opt, value, verify},
     error::context,
@@ -683,15 +683,18 @@ fn terminal(mut input: Span) -> IResult<Span, String> {
         input = after;
 
         // an optional sequence of escaped characters
-        while let Some(after) = input.strip_prefix('\\') {
-            input = after.into();
+        while input.starts_with('\\') {
+            // Advance with take() rather than re-creating a Span out of the remaining &str: the latter starts counting
+            // lines and columns from scratch, corrupting the location of everything that follows an escape.
+            let (after, _) = take(1usize)(input)?;
+            input = after;
             if input.starts_with([
                 '(', ')', '[', ']', '<', '>', '|', ';', '"', '{', '}', '\\', '.',
             ]) {
-                let mut chars = input.chars();
-                term.push(chars.next().unwrap());
+                let (after, escaped) = take(1usize)(input)?;
+                term.push_str(escaped.fragment());
                 consumed += 1;
-                input = chars.as_str().into();
+                input = after;
             } else {
                 // escaped non-special character
                 return fail().parse(input);
